@@ -96,9 +96,13 @@ Proof.
   set (b := time_of_time64 {| t64_sec := s; t64_frac := f |} tref) in *. clearbody b.
   destruct Hd as [[Ha Hb] [Hc [Hd He]]].
   set (x := time_sec b) in *. set (y := time_nsec b) in *. set (r := time_sec tref) in *.
-  clearbody x y r. unfold nanos_per_sec.
-  rewrite !andb_true_iff, !Z.leb_le, !Z.ltb_lt, Z.eqb_eq.
-  repeat split; assumption.
+  clearbody x y r. cbv zeta.
+  set (n := (f * 1000000000 + 4294967295) / 4294967296).
+  assert (Hn : y <= n <= y + 1) by (unfold n; lia).
+  apply andb_true_iff; split.
+  - rewrite !andb_true_iff, Z.leb_le, Z.ltb_lt, Z.eqb_eq. repeat split; assumption.
+  - destruct ((n <? 1000000000) && (n * 4294967296 / 1000000000 =? f)); [|reflexivity].
+    rewrite andb_true_iff, !Z.leb_le. lia.
 Qed.
 
 (* order is also reflected: a strictly earlier result comes from a strictly earlier time *)
